@@ -5,12 +5,27 @@ package main
 
 import (
 	"fmt"
+	"math/big"
 	"sort"
 	"strings"
 )
 
 // c.new  {A,P,V}            save a container literal
 // c.ops  {A,P,T,M,Sub}      M = "ref" (borrow auth(Mutate) &T) | "mem" (load, operate, save back)
+
+// hugeIdx: indices at or beyond +-hugeIdx stand for Int values that do not fit in 64 bits (2^64 + k, -2^64 - k): the model sees
+// an index far out of range, the program an arbitrary-precision Int literal.
+const hugeIdx = 1 << 60
+
+func idxLit(i int) string {
+	switch {
+	case i >= hugeIdx:
+		return new(big.Int).Add(new(big.Int).Lsh(big.NewInt(1), 64), big.NewInt(int64(i-hugeIdx))).String()
+	case i <= -hugeIdx:
+		return "(-" + new(big.Int).Add(new(big.Int).Lsh(big.NewInt(1), 64), big.NewInt(int64(-i-hugeIdx))).String() + ")"
+	}
+	return fmt.Sprint(i)
+}
 
 func isPrim(t *Ty) bool { return t.K == "Int" || t.K == "String" || t.K == "Bool" || t.K == "UInt64" }
 
@@ -68,19 +83,19 @@ func (o Op) codeContainers(k int, m *Model) (string, bool) {
 		case "appendAll":
 			w(`%s.appendAll(%s)`, c, s.V.Lit())
 		case "insert":
-			w(`%s.insert(at: %d, %s)`, c, s.I, s.V.Lit())
+			w(`%s.insert(at: %s, %s)`, c, idxLit(s.I), s.V.Lit())
 		case "remove":
-			w(`%s`, ob(tag, et, false, fmt.Sprintf("%s.remove(at: %d)", c, s.I)))
+			w(`%s`, ob(tag, et, false, fmt.Sprintf("%s.remove(at: %s)", c, idxLit(s.I))))
 		case "removeFirst":
 			w(`%s`, ob(tag, et, false, c+".removeFirst()"))
 		case "removeLast":
 			w(`%s`, ob(tag, et, false, c+".removeLast()"))
 		case "get":
-			w(`%s`, ob(tag, et, false, elemRead(fmt.Sprintf("%s[%d]", c, s.I))))
+			w(`%s`, ob(tag, et, false, elemRead(fmt.Sprintf("%s[%s]", c, idxLit(s.I)))))
 		case "set":
-			w(`%s[%d] = %s`, c, s.I, s.V.Lit())
+			w(`%s[%s] = %s`, c, idxLit(s.I), s.V.Lit())
 		case "slice":
-			w(`%s`, ob(tag, TArr(et), false, fmt.Sprintf("%s.slice(from: %d, upTo: %d)", c, s.I, s.J)))
+			w(`%s`, ob(tag, TArr(et), false, fmt.Sprintf("%s.slice(from: %s, upTo: %s)", c, idxLit(s.I), idxLit(s.J))))
 		case "reverse":
 			w(`%s`, ob(tag, o.T, false, c+".reverse()"))
 		case "concat":
